@@ -190,6 +190,12 @@ func (f *Func) OnlyVia(target *cfgx.Node, edges []*cfgx.Edge) bool {
 		cut[e] = true
 	}
 	g := f.Graph()
+	// paths that are infeasible for every valuation of the function's flags (a flag tested twice, an error
+	// variable set in one arm and tested later) do not count
+	if res, ok := f.exploreFlags(nil, cut, nil); ok {
+		_, reached := res[target]
+		return !reached
+	}
 	vs := g.Explore([]*cfgx.Visit{cfgx.StartAt(g.Entry, 0)}, cfgx.Walker{OnEdge: func(e *cfgx.Edge, s cfgx.State) (cfgx.State, bool) {
 		return s, !cut[e]
 	}})
@@ -201,9 +207,39 @@ func (f *Func) OnlyVia(target *cfgx.Node, edges []*cfgx.Edge) bool {
 	return true
 }
 
+// BypassWitness returns a path from the entry to target that crosses none of
+// the given edges (nil when OnlyVia holds).
+func (f *Func) BypassWitness(target *cfgx.Node, edges []*cfgx.Edge) *cfgx.Visit {
+	if target == nil {
+		return nil
+	}
+	cut := map[*cfgx.Edge]bool{}
+	for _, e := range edges {
+		cut[e] = true
+	}
+	g := f.Graph()
+	if res, ok := f.exploreFlags(nil, cut, nil); ok {
+		return res[target]
+	}
+	for _, v := range g.Explore([]*cfgx.Visit{cfgx.StartAt(g.Entry, 0)}, cfgx.Walker{OnEdge: func(e *cfgx.Edge, s cfgx.State) (cfgx.State, bool) {
+		return s, !cut[e]
+	}}) {
+		if v.Node == target {
+			return v
+		}
+	}
+	return nil
+}
+
 // ReachableFromEdges returns the nodes reachable from the targets of edges,
 // not entering nodes for which avoid is true.
 func (f *Func) ReachableFromEdges(edges []*cfgx.Edge, avoid func(*cfgx.Node) bool) map[*cfgx.Node]*cfgx.Visit {
+	if len(edges) > 0 {
+		f.Graph()
+		if res, ok := f.exploreFlags(edges, nil, avoid); ok {
+			return res
+		}
+	}
 	var start []*cfgx.Visit
 	for _, e := range edges {
 		start = append(start, cfgx.StartAfter(e, 0))
@@ -302,6 +338,13 @@ func (f *Func) errExprKind(n *cfgx.Node, e ast.Expr, depth int) RetKind {
 	case *ast.CallExpr:
 		if f.P.AlwaysErr(f.Callee(x), depth) {
 			return RetError
+		}
+		if callee := f.Callee(x); callee != nil && callee.Pkg() != nil && callee.Pkg().Path() == "errors" && callee.Name() == "Join" {
+			for _, a := range x.Args {
+				if f.errExprKind(n, a, depth) == RetError {
+					return RetError
+				}
+			}
 		}
 		if tv, ok := f.Info().Types[x.Fun]; ok && tv.IsType() {
 			// conversion such as error(x)
@@ -774,7 +817,7 @@ func (f *Func) ReturnKindsFromAvoiding(start []*cfgx.Visit, stop func(*cfgx.Node
 					default:
 						if j, ok := number(f.ObjOf(w.RHS)); ok && f.ObjOf(w.RHS) != nil {
 							v = get(st, j)
-						} else if call, isCall := ast.Unparen(w.RHS).(*ast.CallExpr); isCall && f.P.AlwaysErr(f.Callee(call), 0) {
+						} else if f.errExprKind(n, w.RHS, 0) == RetError { // constructors, sentinels, errors.Join of them
 							v = 2
 						}
 					}
